@@ -151,6 +151,11 @@ def run(chk):
                 ops.append({"op": opn, "a": ma, "b": mb})
                 checks.append((fn, cname, ma, mb, core.call_real(lambda fn=fn, ca=ca, cb=cb: getattr(st, fn)(ca, cb)),
                                core.call_real(lambda fn=fn, ca=ca, cb=cb: getattr(st, fn)(cb, ca))))
+                # the SAME object on both sides (the diagonal of a pairwise overlap table): missing values are dropped there too
+                if [x for x in ma if x is not None] and rng.random() < 0.35:
+                    ops.append({"op": opn, "a": ma, "b": ma})
+                    same_obj = core.call_real(lambda fn=fn, ca=ca: getattr(st, fn)(ca, ca))
+                    checks.append((fn, cname + "-same-object", ma, ma, same_obj, same_obj))
     ans = core.run_driver_parallel(ops)
     for (fn, cname, ma, mb, real, real_swapped), a in zip(checks, ans):
         inter = bool({x for x in ma if x is not None} & {x for x in mb if x is not None})
